@@ -666,7 +666,33 @@ func sameLength(a, b ssa.Value) bool {
 	}
 	x, ok1 := lenOf(a)
 	y, ok2 := lenOf(b)
-	return ok1 && ok2 && sameLenBase(x, y)
+	if ok1 && ok2 && sameLenBase(x, y) {
+		return true
+	}
+	// len(s) of a slice that was made with length L is L
+	madeWith := func(s ssa.Value, l ssa.Value) bool {
+		ins, ok := s.(ssa.Instruction)
+		if !ok || ins.Parent() == nil {
+			return false
+		}
+		lens := madeWithLen(ins.Parent(), s)
+		if len(lens) == 0 {
+			return false
+		}
+		for _, m := range lens {
+			if m != l {
+				return false
+			}
+		}
+		return true
+	}
+	if ok1 && !ok2 && madeWith(x, b) {
+		return true
+	}
+	if ok2 && !ok1 && madeWith(y, a) {
+		return true
+	}
+	return false
 }
 
 // condLen2 decodes a branch condition into what it says about len(X) when it is
